@@ -56,6 +56,14 @@ class CallRule:
         self.callee, self.template, self.bound, self.recv, self.flag = callee, template, bound, recv, flag
 
 
+def inspect_getattr_static(cls, name):
+    import inspect
+    try:
+        return inspect.getattr_static(cls, name)
+    except AttributeError:
+        return None
+
+
 def unwrap(f):
     """the plain function behind a property / classmethod / menpo.base.doc_inherit wrapper"""
     for _ in range(4):
@@ -65,10 +73,11 @@ def unwrap(f):
 
 
 class TranslatorK(py2lean2.Translator2M):
-    def __init__(self, rules, calls=()):
+    def __init__(self, rules, calls=(), int_as=None):
         py2lean2.Translator2M.__init__(self, rules)
         self.calls = list(calls)
         self._ktmp = 0
+        self.int_as = int_as      # Lean type of the integer literals of the source (None: left to elaboration)
 
     # ------------------------------------------------------------------------------------------ call binding
     def bind_call(self, rule, node, env, scope):
@@ -123,17 +132,131 @@ class TranslatorK(py2lean2.Translator2M):
         return None, None
 
     # ------------------------------------------------------------------------------------------ expressions
+    def function(self, fn, arg_names, ind=2, allow_unused=()):
+        """as Translator2.function; remembers where `fn` lives so that helper functions of the same module / class that
+        the vocabulary has no word for can be INLINED at their call sites (`inline_helper`)"""
+        self._globals = getattr(fn, "__globals__", {})
+        qual = getattr(fn, "__qualname__", "").split(".")
+        self._owner = self._globals.get(qual[0]) if len(qual) > 1 else None
+        return py2lean2.Translator2M.function(self, fn, arg_names, ind=ind, allow_unused=allow_unused)
+
+    @staticmethod
+    def normalise(node):
+        """one word for one meaning: `a @ b` and `a.dot(b)` are `np.dot(a, b)`"""
+        if isinstance(node, ast.BinOp) and isinstance(node.op, ast.MatMult):
+            return ast.Call(func=ast.Attribute(value=ast.Name(id="np", ctx=ast.Load()), attr="dot", ctx=ast.Load()),
+                            args=[node.left, node.right], keywords=[])
+        if (isinstance(node, ast.Call) and isinstance(node.func, ast.Attribute) and node.func.attr == "dot"
+                and len(node.args) == 1 and not node.keywords
+                and not (isinstance(node.func.value, ast.Name) and node.func.value.id in ("np", "numpy"))):
+            return ast.Call(func=ast.Attribute(value=ast.Name(id="np", ctx=ast.Load()), attr="dot", ctx=ast.Load()),
+                            args=[node.func.value, node.args[0]], keywords=[])
+        return node
+
+    @staticmethod
+    def is_text(node):
+        """the text of a message is not behaviour: string literals, `"..".format(..)`, `".." % x`, f-strings"""
+        if isinstance(node, ast.Constant) and isinstance(node.value, str):
+            return True
+        if isinstance(node, ast.JoinedStr):
+            return True
+        if (isinstance(node, ast.Call) and isinstance(node.func, ast.Attribute) and node.func.attr == "format"
+                and TranslatorK.is_text(node.func.value)):
+            return True
+        if isinstance(node, ast.BinOp) and isinstance(node.op, (ast.Mod, ast.Add)) and TranslatorK.is_text(node.left):
+            return True
+        return False
+
+    # ---- helper functions the refactoring of a method extracted: not a new word of the vocabulary, just more source
+    def helper_of(self, node):
+        """the live function a call `f(..)` / `self.f(..)` / `Cls.f(self, ..)` runs when `f` is a plain Python function of
+        the module (or class) of the function being translated; (function, implicit receiver ast or None)"""
+        import types
+        g = getattr(self, "_globals", {})
+        f, recv = None, None
+        if isinstance(node.func, ast.Name):
+            f = g.get(node.func.id)
+        elif (isinstance(node.func, ast.Attribute) and isinstance(node.func.value, ast.Name)
+              and node.func.value.id == "self" and getattr(self, "_owner", None) is not None):
+            f = inspect_getattr_static(self._owner, node.func.attr)
+            recv = node.func.value
+        if isinstance(f, (staticmethod, classmethod)):
+            return None, None
+        f = unwrap(f) if f is not None else None
+        if not isinstance(f, types.FunctionType) or not (f.__module__ or "").startswith("menpo"):
+            return None, None
+        return f, recv
+
+    def inline_helper(self, node):
+        """AST of the call with the helper's body substituted: straight-line single assignments and `return`s, `if` with
+        returning arms become a conditional expression.  Arguments are bound by Python's rules through the live `def`;
+        every expression of the vocabulary is pure, so substituting an argument more than once is sound."""
+        f, recv = self.helper_of(node)
+        if f is None:
+            return None
+        rule = CallRule("helper", lambda: f, "", bound=("s" if recv is not None else None))
+        bound = self.bind_call(rule, node, {"s": recv}, None)
+        fn, _src = source_ast(f)
+        depth = getattr(self, "_inline_depth", 0)
+        if depth > 6:
+            raise Untranslatable("helper functions nested too deeply (recursion?) at `%s`" % fn.name)
+
+        class Sub(ast.NodeTransformer):
+            def __init__(self, env):
+                self.env = env
+
+            def visit_Name(self, n):
+                if isinstance(n.ctx, ast.Load) and n.id in self.env:
+                    return self.env[n.id]
+                return n
+
+        def value_of(stmts, env):
+            stmts = [st for st in stmts if not (isinstance(st, ast.Expr) and isinstance(st.value, ast.Constant))
+                     and not isinstance(st, ast.Pass)]
+            if not stmts:
+                raise Untranslatable("helper `%s` can fall off its end" % fn.name)
+            st, rest = stmts[0], stmts[1:]
+            if isinstance(st, ast.Return) and st.value is not None:
+                return Sub(env).visit(ast.parse(ast.unparse(st.value), mode="eval").body)
+            if isinstance(st, ast.Assign) and len(st.targets) == 1 and isinstance(st.targets[0], ast.Name):
+                e2 = dict(env)
+                e2[st.targets[0].id] = Sub(env).visit(ast.parse(ast.unparse(st.value), mode="eval").body)
+                return value_of(rest, e2)
+            if isinstance(st, ast.If):
+                test = Sub(env).visit(ast.parse(ast.unparse(st.test), mode="eval").body)
+                return ast.IfExp(test=test, body=value_of(list(st.body) + rest, dict(env)),
+                                 orelse=value_of(list(st.orelse) + rest, dict(env)))
+            raise Untranslatable("helper `%s` is not an expression: `%s`" % (fn.name, ast.unparse(st).splitlines()[0]))
+        out = value_of(list(fn.body), dict(bound))
+        return ast.fix_missing_locations(out)
+
     def expr(self, node, scope):
+        node = self.normalise(node)
+        if (self.int_as and isinstance(node, ast.Constant) and isinstance(node.value, int)
+                and not isinstance(node.value, bool)):
+            return "((%d : %s))" % (node.value, self.int_as), ""     # an integer literal of this vocabulary is typed
         rule, env = self.find_call(node, False)
         if rule is not None:
             text, _b = self.call_text(rule, node, env, scope)
             return text, rule.flag
-        if (isinstance(node, ast.Call) and isinstance(node.func, ast.Attribute) and node.func.attr == "format"
-                and isinstance(node.func.value, ast.Constant) and isinstance(node.func.value.value, str)):
-            return "()", ""                # the text of a message is not behaviour
-        if isinstance(node, ast.Constant) and isinstance(node.value, str):
+        if self.is_text(node):
             return "()", ""
-        return py2lean2.Translator2M.expr(self, node, scope)
+        mark = len(self._pending[-1]) if self._pending else 0
+        try:
+            return py2lean2.Translator2M.expr(self, node, scope)
+        except Untranslatable:
+            if not isinstance(node, ast.Call):
+                raise
+            if self._pending:
+                del self._pending[-1][mark:]      # operands hoisted by the failed attempt
+            inl = self.inline_helper(node)
+            if inl is None:
+                raise
+            self._inline_depth = getattr(self, "_inline_depth", 0) + 1
+            try:
+                return self.expr(inl, scope)
+            finally:
+                self._inline_depth -= 1
 
     # ------------------------------------------------------------------------------------------ statements
     def _block1(self, stmts, scope, ind, ctx):
@@ -311,7 +434,7 @@ def items():
     S = {"self": "s"}
 
     def TB(extra=(), calls=(), **kw):
-        return TranslatorK(book_rules(extra=extra, **kw), calls)
+        return TranslatorK(book_rules(extra=extra, **kw), calls, int_as="PyVal")
 
     # ------------------------------------------------------------------ accessors (exact arithmetic)
     add("def genNComponents (s : St) : PyVal :=", ".none",
@@ -419,7 +542,7 @@ def items():
     def TC(**kw):
         kw.setdefault("ret", ".ok ({e})")
         r = py2lean2.Rules2M(expr=CTOR_EXPR, stmt=CTOR_STMT, float_=float_const, **kw)
-        return TranslatorK(r, CTOR_CALLS)
+        return TranslatorK(r, CTOR_CALLS, int_as="PyVal")
 
     NPFL = "{A : Type} (np : NP A) (fl : Fl)"
     add("def genLinearInit {A : Type} (np : NP A) (self : Plumb A) (components : A) : Plumb A :=", "self",
@@ -729,6 +852,7 @@ HEADER = """/- TRANSLATED by harness/trans_c10.py (harness/py2lean2.py) from the
    menpo/model/linear.py and menpo/model/vectorizable.py of the current working tree on every run of `./check C10`;
    do not edit.  GenProps/C10Src.lean proves every definition equal to the Core definition the C10 theorems are about. -/
 import MenpoModel.Core.C10Src
+import MenpoModel.Core.PyLoop
 
 set_option linter.unusedVariables false
 
